@@ -158,7 +158,7 @@ def model_op(op):
             # positional items first, then the keyword items, one assignment each
             pairs = pairs + list(dict(dpairs(op[3])).items())
         return (name, pairs)
-    if name in ('update_self', 'ior_self'):
+    if name in ('update_self', 'ior_self', 'iter_hold'):
         return ('noop',)
     if name == 'update_bad':
         return ('update_bad', dpairs(op[1]))
@@ -176,6 +176,7 @@ class Ctx:
         self.sched = sched
         self.on_miss_calls = []
         self.cache = None
+        self.kept_iterators = []
 
     def make_on_miss(self, kind):
         if kind == 'none':
@@ -304,6 +305,13 @@ def exec_op(c, op, ctx):
             return ('ok', ('keys', len(ks), d)), None
         if name in ('eq', 'ne'):
             return ('ok', compare(c, name, dpairs(op[1]), op[2] if len(op) > 2 else 'dict')), None
+        if name == 'iter_hold':
+            # a loop over the cache that stops after the first key and keeps its iterator (zip() with a shorter
+            # sequence, a for-loop with a break whose iterator is still referenced)
+            it = iter(c)
+            next(it, None)
+            ctx.kept_iterators.append(it)
+            return ('ok', None), None
         if name == 'update_bad':
             c.update(dpairs(op[1]) + [('not-a-pair',)])
             return ('ok', 'update() accepted a malformed sequence'), None
